@@ -176,6 +176,31 @@ def check_wip(lab, mon, rng):
         else:
             lab.P.use(saved)
 
+def check_word_named_tags(lab, mon):
+    """Tags whose NAME is a word the implementation knows (never, true, false, none, and_, ...) are ordinary tags."""
+    names = ["never", "Never", "true", "false", "none", "android", "nothing", "orange"]
+    for n in names:
+        other = "a"
+        universe = [n, other]
+        subs = list(T.subsets(universe))
+        for ast in (["lit", n], ["not", ["lit", n]], ["or", ["lit", n], ["lit", other]], ["and", ["lit", n], ["lit", other]],
+                    ["not", ["and", ["lit", n], ["not", ["lit", other]]]]):
+            for at in (False, True):
+                text = T.render_v2(ast, None, "min", at)
+                case = {"kind": "word-named-tag", "ast": ast, "text": text}
+                mon.case(case, True)
+                want = T.truth_table(ast, subs)
+                try:
+                    e = lab.make(text, lab.P.V2)
+                    got = T.truth_table_of(e.check, subs)
+                    ok = got == want
+                    e2 = lab.make(str(e), lab.P.V2)
+                    ok2 = T.truth_table_of(e2.check, subs) == want
+                    mon.check("v2.meaning", ok, lambda: dict(case=case, want=want, got=got, parsed=repr(e)))
+                    mon.check("v2.print_roundtrip", ok2, lambda: dict(case=case, printed=str(e)))
+                except Exception as ex:
+                    mon.check("v2.meaning", False, dict(case=case, error=repr(ex)))
+
 
 def run(spec, mon):
     lab = Lab()
@@ -185,6 +210,7 @@ def run(spec, mon):
     styles_all = [("min", False), ("min", True), ("full", False), ("inner", False), ("redundant", "mixed"), ("redundant", "mixed")]
 
     if shard == 0:
+        check_word_named_tags(lab, mon)
         for text in ("", " ", "   ", []):
             case = {"kind": "empty", "text": text}
             mon.case(case, True)
